@@ -24,13 +24,33 @@ def ty_of_def(d):
     return ty_of(e["type"](0))
 
 
-def is_list_attr(cls, name, _cache={}):
+def default_is_list(cls, name, _cache={}):
+    """the attribute holds a list right after construction"""
     key = (cls, name)
     if key not in _cache:
         try:
             _cache[key] = isinstance(getattr(cls(), name), list)
         except Exception:
             _cache[key] = False
+    return _cache[key]
+
+
+def is_list_attr(cls, name, _cache={}):
+    """a repeatable attribute: its annotation is `list[...]`, or it is a list after construction (the quantifier's
+    "list attributes" are the declared ones: a declared list that is not initialised as one is a defect, not a scalar)"""
+    key = (cls, name)
+    if key not in _cache:
+        try:
+            is_list = isinstance(getattr(cls(), name), list)
+        except Exception:
+            is_list = False
+        ann = None
+        for k in reversed(cls.__mro__):
+            ann = (getattr(k, "__annotations__", {}) or {}).get(name, ann)
+        if ann is not None:
+            txt = ann if isinstance(ann, str) else getattr(ann, "__name__", "") + str(ann)
+            is_list = is_list or str(txt).replace("typing.", "").lstrip().lower().startswith("list")
+        _cache[key] = is_list
     return _cache[key]
 
 
@@ -134,7 +154,7 @@ def canonical(ast, cls):
         dflt = int_defaults(c)
         for d in c.avp_def:
             aid = sd["name_id"][d.attr_name]
-            if aid not in fields and is_list_attr(c, d.attr_name):
+            if aid not in fields and default_is_list(c, d.attr_name):
                 fields[aid] = ("M", []) if d.type_class is not None else ("L", [])
             elif aid not in fields and d.attr_name in dflt:
                 fields[aid] = ("S", f"i:{dflt[d.attr_name]}")
